@@ -41,6 +41,11 @@ class Cfg:
                 "undo_probe": self.undo_probe}
 
 
+class ReplayDiverged(RuntimeError):
+    """an event that was accepted when its state was first reached is not accepted when the same
+    history is replayed on a fresh object"""
+
+
 def rebuild(w, seed, history, _attempt=0):
     tracks = worlds.build(w, seed)
     events.attach_refresh_counter(tracks)
@@ -56,7 +61,7 @@ def rebuild(w, seed, history, _attempt=0):
             finally:
                 events.WATCHDOG_S = saved
         if out.status not in ("ok", "noop"):
-            raise RuntimeError(f"HARNESS: replay of accepted event {ev!r} gave {out.status} {out.exc!r}")
+            raise ReplayDiverged(f"HARNESS: replay of accepted event {ev!r} gave {out.status} {out.exc!r}")
     return tracks
 
 
@@ -352,6 +357,18 @@ def _undo_probe(cfg, tracks, pre, add, tag, ev, post_bad=frozenset(), confirm=Tr
             return
 
 
+def _diverged(cfg, w, wname, seed, seed_j, history, stats, tags, e):
+    """The same history, replayed on a fresh object in this long-lived worker, did not do what it
+    did before.  The harness is deterministic, so either it is broken or the library carries state
+    from one object to the next.  Recorded as a candidate violation; the reporting step replays it in
+    fresh interpreters and counts it only if it reproduces there (a single replay in a clean process
+    cannot diverge, so by itself this ends as a harness error, never as a silent pass)."""
+    vio = [mk_violation(p, "history-not-replayable", f"{e}", w, seed, history[:-1], history[-1], "replay", "diverged",
+                        {"times": {}, "indeg": {}, "outdeg": {}, "edges": set()}) for p in sorted(cfg.props)]
+    return {"key": f"diverged:{wname}:{seed_j}:{len(history)}", "succ": [], "violations": vio, "stats": stats, "tags": tags,
+            "nevents": 0, "tainted": sorted(cfg.props)}
+
+
 def expand(task):
     """Worker: expand one state = fire every event of the alphabet from it."""
     cfg, wname, seed_j, history_j, want_succ = task
@@ -364,6 +381,8 @@ def expand(task):
     try:
         tracks = events.with_watchdog(lambda: rebuild(w, seed, history), 30)
     except (Exception, events.Hang) as e:  # noqa: BLE001
+        if history and isinstance(e, ReplayDiverged):
+            return _diverged(cfg, w, wname, seed, seed_j, history, stats, tags, e)
         if history:
             raise  # a state that was reached before must be reachable again
         # the constructor / feature set-up itself fails on a valid seed
@@ -399,7 +418,12 @@ def expand(task):
     fresh = True
     for ev in evs:
         if not fresh:
-            tracks = rebuild(w, seed, history)
+            try:
+                tracks = rebuild(w, seed, history)
+            except ReplayDiverged as e:
+                d = _diverged(cfg, w, wname, seed, seed_j, history, stats, tags, e)
+                vio.extend(d["violations"])
+                break
         r = fire(cfg, w, seed, history, ev, tracks, pre)
         fresh = r["reusable"]
         stats[f"{ev[0]}:{r['status']}"] += 1
